@@ -5,7 +5,9 @@ package mon
 // C01/C02.
 
 import (
+	"encoding/base64"
 	"sort"
+	"strconv"
 	"strings"
 	"sync"
 
@@ -59,16 +61,20 @@ func init() {
 		// the opener once, then a run of NULs (skipped one by one)
 		htmlUnits = append(htmlUnits, scaleFam{o, "\x00", ""})
 	}
+	// escaped quotes behind bytes of double-byte character sets (a lead-byte test that walks back or forth)
+	for _, hb := range []string{"\xbf", "\xbf\xbf", "\x81", "\xe3\x80", "\xfe\xfe\xfe", "\xbf\x5c\xbf"} {
+		sqlUnits = append(sqlUnits, scaleFam{"", hb + "\\'", ""}, scaleFam{"", hb + "''", ""}, scaleFam{"", hb + "\\\"", ""})
+	}
 	htmlUnits = append(htmlUnits, scaleFam{"<![CDATA[", "]", "x"}, scaleFam{"<![CDATA[", "]]", "x"}, scaleFam{"<!--", "-", "x"}, scaleFam{"<%", "%", "x"}, scaleFam{"<a href=", "&#", "x"}, scaleFam{"<a href='", "&#x", "g'"})
 	sqlScale = crossPrefix([]string{"", "'", "\"", "1 '"}, sqlUnits)
 	htmlScale = htmlUnits
 	sqlDomain.scale, sqlDomain.scaleBase = sqlScale, sqlUnits
 	htmlDomain.scale, htmlDomain.scaleBase = htmlScale, htmlUnits
 	sqlDomain.aliasCases = sqlAliasCases
-	htmlDomain.extraCases = map[string]func() []string{"attrvals": htmlAttrValCases}
-	sqlDomain.extraCases = map[string]func() []string{"qualified": sqlQualifiedCases, "gluelit": sqlGlueLitCases}
+	htmlDomain.extraCases = map[string]func() []string{"attrvals": htmlAttrValCases, "nsattrs": htmlNsAttrCases}
+	sqlDomain.extraCases = map[string]func() []string{"qualified": sqlQualifiedCases, "gluelit": sqlGlueLitCases, "encatk": sqlEncodedAttackCases}
 	htmlDomain.aliasCases = htmlAliasCases
-	sqlDomain.seamPairs = [][2]string{{"sp_password", " --"}, {"1", " --sp_password"}, {"", "' OR 1=1-- "}, {"1 ", "\" or 1=1 #"}, {"1 /*", "*/ union select 1"}, {"1", " union select 1,2"}, {"$$", "$$ or 1=1"}, {"x'", "' or 1=1"}, {"1 --", "\n or 1=1"}}
+	sqlDomain.seamPairs = [][2]string{{"sp_password", " --"}, {"1", " --sp_password"}, {"", "' OR 1=1-- "}, {"1 ", "\" or 1=1 #"}, {"1 /*", "*/ union select 1"}, {"1", " union select 1,2"}, {"$$", "$$ or 1=1"}, {"x'", "' or 1=1"}, {"1 --", "\n or 1=1"}, {"1 or 1=1 -- ' or 1=1 -- \" union select 1 -- ", ""}, {"a' or 1=1 -- \" union select 1,2 -- ", " x"}}
 	sqlDomain.seamPads = []string{"a", " "}
 	htmlDomain.seamPairs = [][2]string{{"<a title='", "' onclick=x>"}, {"<!--", "--><script>"}, {"", "<script>"}, {"<a ", "onerror=x>"}, {"x", "' onerror='y"}, {"<a href=\"", "\" src=javascript:x>"}, {"<![CDATA[", "]]><svt>"}}
 	htmlDomain.seamPads = []string{"x", " "}
@@ -253,4 +259,102 @@ func sqlGlueLitCases() []string {
 		}
 	})
 	return glueList
+}
+
+var nsAttrOnce sync.Once
+var nsAttrList []string
+
+// htmlNsAttrCases: every attribute, event and tag name of the live tables
+// behind a namespace-like prefix or in front of a suffix, with a value that
+// would make the bare name fire.
+func htmlNsAttrCases() []string {
+	nsAttrOnce.Do(func() {
+		pres := []string{"xlink:", "xml:", "xmlns:", "svg:", "x:", "data-", "aria-", "ng-", "v-on:", "@", ":", "_", "on", "xlink", "xmlns", "XLINK:", "xl\x00ink:", "html:", "ev:", "-"}
+		sufs := []string{":x", "-x", ".x", ":", "_", "s", "2"}
+		val := func(ty int) string { return []string{"x", "x", "javascript:x", "x", "onclick"}[ty%5] }
+		add := func(name string, ty int) {
+			low := strings.ToLower(name)
+			for i, p := range pres {
+				q := []string{"", "'", "\""}[i%3]
+				nsAttrList = append(nsAttrList, "<a "+p+low+"="+q+val(ty)+q+">", " "+p+name+"="+val(ty)+" ")
+			}
+			for _, sf := range sufs {
+				nsAttrList = append(nsAttrList, "<a "+low+sf+"="+val(ty)+">")
+			}
+		}
+		for _, a := range li.VerifBlacks() {
+			add(a.Name, a.Type)
+		}
+		for i, e := range li.VerifBlackEvents() {
+			if i%8 == 0 {
+				add("on"+e.Name, e.Type)
+			}
+		}
+		for _, t := range li.VerifBlackTags() {
+			low := strings.ToLower(t)
+			for _, p := range pres {
+				nsAttrList = append(nsAttrList, "<"+p+low+">", "</"+p+low+" x>")
+			}
+			for _, sf := range sufs {
+				nsAttrList = append(nsAttrList, "<"+low+sf+">")
+			}
+		}
+	})
+	return nsAttrList
+}
+
+var encAtkOnce sync.Once
+var encAtkList []string
+
+// sqlEncodedAttackCases: injection strings in the transport encodings a
+// decoder in front of the scanner might undo (character references, URL and
+// double URL encoding, \u / \x escapes, character-code lists, base64, hex).
+// The scanner must read the bytes it is given.
+func sqlEncodedAttackCases() []string {
+	encAtkOnce.Do(func() {
+		atks := []string{"1' or '1'='1", "1 or 1=1", "1' or 1=1 -- ", "1 union select 1,2,3 -- ", "' or 'a'='a", "1\" or 1=1 #", "admin'--", "1; drop table t", "x' and sleep(5) -- ", "1 /*!50000union*/ select 1", "-1' union select load_file('/etc/passwd')--"}
+		pct := func(v string, all bool) string {
+			var b strings.Builder
+			for i := 0; i < len(v); i++ {
+				c := v[i]
+				if !all && (c >= 'a' && c <= 'z' || c >= 'A' && c <= 'Z' || c >= '0' && c <= '9') {
+					b.WriteByte(c)
+				} else {
+					b.WriteString("%" + strings.ToUpper(hexByte(c)))
+				}
+			}
+			return b.String()
+		}
+		codes := func(v, sep string, base int) string {
+			var parts []string
+			for i := 0; i < len(v); i++ {
+				parts = append(parts, strconv.FormatInt(int64(v[i]), base))
+			}
+			return strings.Join(parts, sep)
+		}
+		for _, a := range atks {
+			encAtkList = append(encAtkList,
+				strings.NewReplacer("'", "&#39;", "\"", "&#34;", "=", "&#61;").Replace(a), strings.NewReplacer("'", "&#x27;", "\"", "&#x22;").Replace(a), strings.NewReplacer("'", "&apos;", "\"", "&quot;").Replace(a),
+				strings.NewReplacer("'", "&#39", "\"", "&#34").Replace(a), strings.NewReplacer("'", "&#0000039;", " ", "&#32;").Replace(a),
+				pct(a, false), pct(pct(a, false), false), pct(a, true), strings.ReplaceAll(pct(a, false), "%", "%u00"),
+				strings.NewReplacer("'", "\\u0027", "\"", "\\u0022", " ", "\\u0020").Replace(a), strings.NewReplacer("'", "\\x27", "\"", "\\x22").Replace(a), strings.NewReplacer("'", "\\'", "\"", "\\\"").Replace(a),
+				strings.NewReplacer("'", "\uff07", "\"", "\uff02", "=", "\uff1d").Replace(a), strings.NewReplacer("'", "\u2019", "\"", "\u201d").Replace(a), strings.NewReplacer("'", "\xc0\xa7", "\"", "\xc0\xa2").Replace(a),
+				codes(a, " ", 10), codes(a, ",", 10), "char("+codes(a, ",", 10)+")", "chr("+codes(a, ")||chr(", 10)+")", codes(a, " ", 16), "0x"+hexString(a), hexString(a), "x'"+hexString(a)+"'",
+				base64.StdEncoding.EncodeToString([]byte(a)), base64.RawURLEncoding.EncodeToString([]byte(a)), "from_base64('"+base64.StdEncoding.EncodeToString([]byte(a))+"')",
+				strings.NewReplacer(" ", "+").Replace(a), strings.NewReplacer(" ", "%20", "'", "%27").Replace(a), strings.NewReplacer("'", "%2527").Replace(a), strings.NewReplacer("'", "%c0%a7").Replace(a), strings.NewReplacer("'", "%EF%BC%87").Replace(a))
+		}
+	})
+	return encAtkList
+}
+
+func hexByte(c byte) string {
+	return string([]byte{"0123456789abcdef"[c>>4], "0123456789abcdef"[c&15]})
+}
+
+func hexString(v string) string {
+	var b strings.Builder
+	for i := 0; i < len(v); i++ {
+		b.WriteString(hexByte(v[i]))
+	}
+	return b.String()
 }
